@@ -430,6 +430,10 @@ T_C18_CounterEvents ==
 T_C18_AvgOccupancy ==
   e.k = "final" => \A j \in 1..NE : e.edges[j].avgTS >= 0 =>
       LET d == e.edges[j].avgTS - 1000 * F.ed[j].area IN d <= 1 /\ d >= -1
+\* an interim report (event "mid", before the events of its instant) is exact as well
+T_C18_AvgOccupancyMid ==
+  e.k = "mid" => \A j \in 1..NE : e.edges[j].avgTS >= 0 =>
+      LET d == e.edges[j].avgTS - 1000 * F.ed[j].area IN d <= 1 /\ d >= -1
 T_C18_CycleTime ==
   e.k = "final" => \A n \in 1..NN : Node(n).type = "sink" => e.nodes[n].cyc = F.nd[n].cyc
 T_C18_Monotone ==
